@@ -116,10 +116,15 @@ OUTCOMES = [
 NRCS = [0x10, 0x11, 0x12, 0x13, 0x22, 0x24, 0x31, 0x33, 0x35, 0x36, 0x37, 0x7E, 0x7F]
 
 
-def _plan(rng, K, ki, outcome, implicit=True, tags="rand", yields=0):
+def _plan(rng, K, ki, outcome, implicit=True, tags="rand", yields=0, reply=None, raw=None, via=None):
+    """one exchange: request kind `K[ki]` - or, with `raw` (bytes), those bytes handed to one of the client's raw entry
+    points (`via`: ECU.send_raw / ECU.request(RawRequest)); `ki` then only names the kind the reply pool is taken from"""
     label, req, replies = K[ki]
-    reply = rng.choice(replies)
-    sid = req.pdu[0]
+    if raw is not None:
+        label = "raw-bytes"
+        replies = [r for r in replies if r[0] == (raw[0] + 0x40) % 256] or [bytes([(raw[0] + 0x40) % 256]) + raw[1:3]]
+    reply = reply if reply is not None else rng.choice(replies)
+    sid = raw[0] if raw is not None else req.pdu[0]
     neg = bytes([0x7F, sid, rng.choice(NRCS)])
     pend = bytes([0x7F, sid, 0x78])
     busy = bytes([0x7F, sid, 0x21])
@@ -174,8 +179,11 @@ def _plan(rng, K, ki, outcome, implicit=True, tags="rand", yields=0):
         raise ValueError(outcome)
     if tags == "rand":
         tags = rng.choice([None, None, "nocfg", [], ["ANALYZE"], ["ANALYZE"], ["scan", "ANALYZE"], ["analyze"], ["X"]])
-    return {"kind": label, "ki": ki, "outcome": outcome, "script": [[e[0]] + [x.hex() for x in e[1:]] for e in script],
+    plan = {"kind": label, "ki": ki, "outcome": outcome, "script": [[e[0]] + [x.hex() for x in e[1:]] for e in script],
             "wscript": wscript, "tags": tags, "max_retry": max_retry, "implicit": implicit, "yields": yields}
+    if raw is not None:
+        plan.update(raw=raw.hex(), via=via or "send_raw")
+    return plan
 
 
 # ------------------------------------------------------------------------------------------------------------------
@@ -343,6 +351,8 @@ async def _body(env, case, path, out):
                 asyncio.current_task().cancel()
                 await asyncio.sleep(0)
             _, req, _ = K[p["ki"]]
+            if p.get("raw") is not None:
+                req = S.RawRequest(bytes.fromhex(p["raw"]))
             ecu.implicit_logging = p["implicit"]
             tags = p["tags"]
             cfg = None if tags == "nocfg" else env["Cfg"](tags=tags, max_retry=p["max_retry"])
@@ -360,12 +370,15 @@ async def _body(env, case, path, out):
                     script.insert(crash["at"][1], ["cancel"])
             tr.begin(script, wscript)
             o = {"i": i, "req_cls": type(req).__name__, "implicit": p["implicit"],
-                 "analyze": isinstance(tags, list) and "ANALYZE" in tags,
+                 "analyze": isinstance(tags, list) and "ANALYZE" in tags, "raw": p.get("raw"), "via": p.get("via"),
                  "pre": [ecu.state.session, ecu.state.security_access_level], "t0": time.time()}
             obs.append(o)
             fatal = None
             try:
-                resp = await ecu.request(req, cfg)
+                if p.get("raw") is not None and p.get("via") == "send_raw":
+                    resp = await ecu.send_raw(bytes.fromhex(p["raw"]), cfg)
+                else:
+                    resp = await ecu.request(req, cfg)
                 o.update(out="ret", resp_cls=type(resp).__name__)
             except asyncio.CancelledError:
                 o.update(out="cancel")
@@ -513,6 +526,8 @@ def judge(res, case):
 
     def ident(e):
         o = by_i[e["i"]]
+        if o.get("raw") is not None:
+            return f"raw-sid={o['raw'][:2]}:via={o['via']}:out={o['out']}"
         if o.get("resp_cls"):
             return f"resp={o['resp_cls']}:out={o['out']}"
         return f"req={o['req_cls']}:out={o['out']}"
@@ -521,7 +536,10 @@ def judge(res, case):
     for k in range(n):
         if not _row_eq(exp[k], rows[k]):
             # a missing row shows as a shift
-            if k + 1 < len(exp) and _row_eq(exp[k + 1], rows[k]) or exp[k]["req"] != rows[k]["req"]:
+            only_req = (len(exp) == len(rows) and all(exp[k][f] == rows[k][f] for f in FIELDS if f != "req")
+                        and exp[k]["has_recv"] == (rows[k]["t_resp"] is not None)
+                        and all(_row_eq(exp[m], rows[m]) for m in range(k + 1, min(n, k + 2))))
+            if not only_req and (k + 1 < len(exp) and _row_eq(exp[k + 1], rows[k]) or exp[k]["req"] != rows[k]["req"]):
                 if not any(_row_eq(exp[k], r) for r in rows):
                     return ("row-missing:" + ident(exp[k]) + where, f"no row for exchange {exp[k]['i']}", exp[k]["i"])
                 return ("row-order:" + ident(exp[k]) + where, f"row of exchange {exp[k]['i']} is out of order", exp[k]["i"])
@@ -738,14 +756,84 @@ def compare_model(ctx, pending):
                          impl=None, model=out[off: off + n], spec_violated=False)
             continue
         m_done, m_rows = parse_model_rows(line)
-        rows = [{"mode": r["mode"], "state": r["state"], "req": r["req"], "resp": r["resp"],
-                 "has_recv": r["t_resp"] is not None, "exc": r["exc"]} for r in res["rows"]]
+        rows = _cmp_rows(res)
         if m_rows != rows or m_done != n_done:
             k = next((i for i in range(min(len(rows), len(m_rows))) if rows[i] != m_rows[i]), min(len(rows), len(m_rows)))
             fields = [f for f in (rows[k] if k < len(rows) else {}) if k < len(m_rows) and rows[k][f] != m_rows[k][f]]
+            if fields == ["state"]:
+                _state_violation(ctx, case, res, m_rows, k)
+                continue
             ctx.disagree("c11:model-vs-code:" + ("+".join(fields) or "row-count"),
                          f"rows left by the real stack differ from the model at row {k} ({fields})", _case_json(case),
                          impl=rows, model=m_rows, spec_violated=False, site="Model/DbLog.lean vs ECU._request/update_state")
+
+
+def _cmp_rows(res):
+    return [{"mode": r["mode"], "state": r["state"], "req": r["req"], "resp": r["resp"],
+             "has_recv": r["t_resp"] is not None, "exc": r["exc"]} for r in res["rows"]]
+
+
+def _model_rows(ctx, case, res):
+    ls, _ = model_lines(case, res, ctx.rng)
+    out = ctx.lean(ls)
+    if "|" not in out[-1]:
+        return None
+    return parse_model_rows(out[-1])[1]
+
+
+def _first_state_diff(rows, m_rows):
+    """index of the first row that equals the model's row in everything but the recorded state (None: no such row, or an
+    earlier difference of another kind)"""
+    for k in range(min(len(rows), len(m_rows))):
+        if rows[k] != m_rows[k]:
+            return k if all(rows[k][f] == m_rows[k][f] for f in rows[k] if f != "state") else None
+    return None
+
+
+def _state_violation(ctx, case, res, m_rows, k):
+    """A row of the real stack records a state that is not the client's view before that request: the view is the fold
+    of `updateState` (Model/DbLog.lean; theorem row_state_is_client_view) over the replies of the exchanges before it -
+    everything else in the row agrees with the model.  Shrink the history (drop exchanges one at a time, cut the tail)
+    while such a row remains, then report the history as the failing input."""
+    best = (case, res, m_rows, k)
+
+    def attempt(plans):
+        c = {"plans": plans, "crash": None}
+        r = run_case(c)
+        if judge(r, c) is not None:
+            return None
+        m = _model_rows(ctx, c, r)
+        kk = _first_state_diff(_cmp_rows(r), m) if m is not None else None
+        return None if kk is None else (c, r, m, kk)
+
+    if not case.get("crash"):
+        budget = 40
+        # the history up to the row's own exchange, then drop exchanges one at a time
+        logged = [o for o in res["obs"] if o.get("implicit") and o.get("writes") and "out" in o]
+        if k < len(logged):
+            t = attempt([dict(p, yields=0) for p in case["plans"][: logged[k]["i"] + 1]])
+            budget -= 1
+            if t is not None:
+                best = t
+        j = 0
+        while budget > 0 and len(best[0]["plans"]) > 1 and j < len(best[0]["plans"]):
+            cur = best[0]["plans"]
+            budget -= 1
+            t = attempt(cur[:j] + cur[j + 1:])
+            if t is not None:
+                best = t
+            else:
+                j += 1
+    c, r, m, kk = best
+    rows = _cmp_rows(r)
+    logged = [o for o in r["obs"] if o.get("implicit") and o.get("writes") and "out" in o]
+    prev = [o for o in logged if o["i"] < logged[kk]["i"]] if kk < len(logged) else []
+    after = (prev[-1].get("resp_cls") or "none") if prev else "none"
+    ctx.disagree(f"c11:row-field:state:after-resp={after}",
+                 f"row {kk} (request {rows[kk]['req']}) records the state {rows[kk]['state']} [session, security level], but the "
+                 f"client's view before that request - the state folded over the replies of the exchanges before it - is "
+                 f"{m[kk]['state']}", _case_json(c), impl={"rows": rows}, model={"rows": m},
+                 spec_violated=True, site="ECU.update_state / ECU._request (state snapshot)")
 
 
 def _state_corr(ctx):
@@ -902,6 +990,126 @@ def _probe_qmax():
         return 0
 
 
+
+# ------------------------------------------------------------------------------------------------------------------
+# raw requests (ECU.send_raw / ECU.request(RawRequest)): arbitrary bytes for every service id the codec knows
+
+
+def _codec_sids(S):
+    """service ids and sub-function ids of the live codec registry"""
+    import inspect
+    sids = {}
+    for sid, svc in S.UDSService._SERVICES.items():
+        if sid is None:
+            continue
+        sfs = []
+        if issubclass(svc, S.SpecializedSubFunctionService):
+            sfs = sorted({x.SUB_FUNCTION_ID for x in svc.__dict__.values()
+                          if inspect.isclass(x) and issubclass(x, S.SubFunction) and x.SUB_FUNCTION_ID is not None})
+        sids[int(sid)] = sfs
+    return sids
+
+
+def raw_pdus(rng, K, S, per_sid):
+    """-> list of (ki, bytes): for every typed sample request its own bytes (well-formed), every truncation, over-long
+    variants (1..3 more bytes: odd lengths for the services that carry lists of fixed-size items) and one with a byte
+    changed; for every service id of the codec (and every sub-function id) short and random bodies of every length
+    0..7 and `per_sid` longer ones; a few unknown service ids"""
+    out = []
+    by_sid = {}
+    for ki, (_, req, _) in enumerate(K):
+        try:
+            b = bytes(req.pdu)
+        except Exception:
+            continue
+        by_sid.setdefault(b[0], ki)
+        out.append((ki, b))
+        for n in range(1, len(b)):
+            out.append((ki, b[:n]))
+        for extra in (1, 2, 3):
+            out.append((ki, b + bytes(rng.randrange(256) for _ in range(extra))))
+            out.append((ki, b + bytes(extra)))
+        if len(b) > 1:
+            j = rng.randrange(1, len(b))
+            out.append((ki, b[:j] + bytes([b[j] ^ (1 << rng.randrange(8))]) + b[j + 1:]))
+    sids = _codec_sids(S)
+    unknown = [x for x in range(256) if x not in sids]
+    for sid in sorted(sids) + rng.sample(unknown, 6):
+        ki = by_sid.get(sid, 0)
+        heads = [bytes([sid])] + [bytes([sid, sf | sup]) for sf in sids.get(sid, []) for sup in (0, 0x80)]
+        for h in heads:
+            out.append((ki, h))
+            for n in range(1, 8):
+                out.append((ki, h + bytes(rng.randrange(256) for _ in range(n))))
+                if n <= 4:
+                    out.append((ki, h + bytes(rng.choice([0x00, 0xF1, 0xFF, 0x01]) for _ in range(n))))
+        for _ in range(per_sid):
+            out.append((ki, bytes([sid]) + bytes(rng.randrange(256) for _ in range(rng.randint(8, 14)))))
+    seen, uniq = set(), []
+    for ki, b in out:
+        if b and b not in seen:
+            seen.add(b)
+            uniq.append((ki, b))
+    return uniq
+
+
+def gen_raw(ctx, K):
+    """histories of raw requests (several per history, any outcome) through both raw entry points"""
+    S = _env()["S"]
+    rng = ctx.rng
+    pdus = raw_pdus(rng, K, S, ctx.pick(1, 6))
+    rng.shuffle(pdus)
+    cases = []
+    per = 8
+    for off in range(0, len(pdus), per):
+        plans = []
+        for ki, b in pdus[off: off + per]:
+            oc = rng.choice(["positive", "positive", "negative", "negative", "timeout", "mismatch-positive", "malformed-positive", "pending-positive"])
+            plans.append(_plan(rng, K, ki, oc, implicit=rng.random() < 0.95, raw=b, via=rng.choice(["send_raw", "send_raw", "request"]),
+                               tags=rng.choice([None, "nocfg", ["ANALYZE"]])))
+        cases.append(("raw-bytes", {"plans": plans, "crash": None}))
+    ctx.notes["raw_request_pdus"] = len(pdus)
+    return cases
+
+
+# ------------------------------------------------------------------------------------------------------------------
+# walks over the replies that drive the client-side state (session control, reset, sendKey, session read-back)
+
+
+def gen_state_walks(ctx, K):
+    """histories over the requests whose positive replies drive ECU.update_state: the session read-back `22 F1 86` reports
+    the session the client already holds or another one, after a level was unlocked or not; further requests follow, so
+    every state reached is also recorded"""
+    rng = ctx.rng
+    idx = {lab: i for i, (lab, _, _) in enumerate(K)}
+    movers = ["dsc1", "dsc2", "dsc3", "reset", "seed1", "seed3", "key2", "key4", "rdbi-session", "rdbi-session", "rdbi-session",
+              "rdbi-multi", "tp", "rdbi", "wdbi"]
+    cases = []
+    for _ in range(ctx.pick(150, 1500)):
+        n = rng.randint(3, ctx.pick(9, 16))
+        believed = 1
+        plans = []
+        for _ in range(n):
+            lab = rng.choice(movers)
+            oc = rng.choice(["positive"] * 8 + ["negative", "timeout", "pending-positive", "mismatch-positive"])
+            reply = None
+            if lab == "rdbi-session":
+                sess = believed if rng.random() < 0.5 else rng.choice([1, 2, 3, 4, 0x40])
+                width = rng.choice([1, 1, 1, 2])
+                reply = bytes.fromhex("62f186") + sess.to_bytes(width, "big")
+                if oc in ("positive", "pending-positive"):
+                    believed = sess
+            elif oc in ("positive", "pending-positive"):
+                if lab.startswith("dsc"):
+                    believed = int(lab[3:])
+                elif lab == "reset":
+                    believed = 1
+            plans.append(_plan(rng, K, idx[lab], oc, reply=reply, tags=rng.choice([None, "nocfg", ["ANALYZE"]]),
+                               yields=rng.choice([0, 0, 1])))
+        cases.append(("state-walk", {"plans": plans, "crash": None}))
+    return cases
+
+
 def gen_cases(ctx):
     env = _env()
     K = env["K"]
@@ -912,6 +1120,9 @@ def gen_cases(ctx):
     cases += c11x.gen_life(ctx, K)
     cases += c11x.gen_multi(ctx, K)
     cases += c11x.gen_tables(ctx)
+    # 0b. raw requests with arbitrary bytes; walks over the state-driving replies
+    cases += gen_raw(ctx, K)
+    cases += gen_state_walks(ctx, K)
     # 1. every kind x every outcome class, alone (exhaustive over the two tables)
     for ki in range(len(K)):
         for oc in OUTCOMES:
